@@ -460,7 +460,7 @@ class Item:
         self._log('R12', 'enumerate loop #%d in %s -> counter %s' % (ordinal, fn_name, counter))
         return self
 
-    def r13(self, fn_name, ordinal, itname='__it'):
+    def r13(self, fn_name, ordinal, itname='__it', into_iter=True):
         """`for x in E { .. continue .. }` -> language-defined desugaring with loop/next."""
         self._no_splice_yet()
         b, o, e = self._loop_span(fn_name, ordinal)
@@ -469,7 +469,7 @@ class Item:
         if not m:
             raise ExtractError('%s: R13 loop #%d is not a for loop' % (self.name, ordinal))
         ind, pat, expr = m.groups()
-        new_hdr = ('%slet mut %s = (%s).into_iter();\n%sloop ' % (ind, itname, expr, ind))
+        new_hdr = (('%slet mut %s = (%s).into_iter();\n%sloop ' if into_iter else '%slet mut %s = %s;\n%sloop ') % (ind, itname, expr, ind))
         body_ins = ('\n%s    let %s = match %s.next() {\n%s        Some(__x) => __x,\n%s        None => break,\n%s    };'
                     % (ind, pat, itname, ind, ind, ind))
         self.text = self.text[:b] + new_hdr + '{' + body_ins + self.text[o + 1:]
@@ -607,20 +607,54 @@ class Item:
         self._log('R7', 'loop #%d of %s annotated' % (ordinal, fn))
         return self
 
-    def before(self, anchor_re, text, nth=0, expect=None, fn_name=None):
-        """Insert text (proof block / ghost let) on its own line(s) before the line matched by anchor_re."""
+    def before(self, anchor_re, text, nth=0, expect=None, fn_name=None, optional=False):
+        """Insert text (proof block / ghost let) on its own line(s) before the line matched by anchor_re.
+        nth=None: before every match (hints that must accompany each occurrence of a statement form);
+        optional=True: zero matches is not an error (the hint is simply not needed)."""
         self._begin_splices()
         ms = self._code_matches(anchor_re, fn_name)
         if expect is not None and len(ms) != expect:
             raise ExtractError('%s: anchor /%s/ expected %d matches, found %d' % (self.name, anchor_re, expect, len(ms)))
+        if nth is None:
+            targets = ms
+        else:
+            targets = ms[nth:nth + 1]
+        if not targets:
+            if optional:
+                return self
+            raise ExtractError('%s: anchor lost /%s/' % (self.name, anchor_re))
+        for m in reversed(targets):
+            ls = self.text.rfind('\n', 0, m.start()) + 1
+            ind = re.match(r'[ \t]*', self.text[ls:]).group(0)
+            block = '\n'.join(ind + l for l in text.strip().split('\n'))
+            self.text = self.text[:ls] + sp(block) + '\n' + self.text[ls:]
+        self._log('R7', 'proof text before /%s/ (%d place(s))' % (anchor_re[:50], len(targets)))
+        return self
+
+    def after_line(self, anchor_re, text, nth=0, fn_name=None):
+        """Insert text on its own line(s) after the line matched by anchor_re."""
+        self._begin_splices()
+        ms = self._code_matches(anchor_re, fn_name)
         if len(ms) <= nth:
             raise ExtractError('%s: anchor lost /%s/' % (self.name, anchor_re))
         m = ms[nth]
         ls = self.text.rfind('\n', 0, m.start()) + 1
+        le = self.text.find('\n', m.end() - 1)
         ind = re.match(r'[ \t]*', self.text[ls:]).group(0)
         block = '\n'.join(ind + l for l in text.strip().split('\n'))
-        self.text = self.text[:ls] + sp(block) + '\n' + self.text[ls:]
-        self._log('R7', 'proof text before /%s/' % anchor_re[:50])
+        self.text = self.text[:le] + '\n' + sp(block) + self.text[le:]
+        self._log('R7', 'proof text after /%s/' % anchor_re[:50])
+        return self
+
+    def at_body_start(self, fn_name, text):
+        """Insert text as the first statement(s) of fn_name's body."""
+        self._begin_splices()
+        b, o, e = fn_span(self.text, fn_name)
+        hdr_ind = re.match(r'[ \t]*', self.text[b:]).group(0)
+        ind = hdr_ind + '    '
+        block = '\n' + '\n'.join(ind + l for l in text.strip().split('\n'))
+        self.text = self.text[:o + 1] + sp(block) + self.text[o + 1:]
+        self._log('R7', 'proof text at start of %s' % fn_name)
         return self
 
     def after_open(self, anchor_re, text, nth=0, fn_name=None):
